@@ -27,6 +27,22 @@ PURE_METHODS = {
 PURE_BUILTINS = INSENSITIVE | {"tuple", "list", "dict", "int", "type", "enumerate", "zip", "range", "iter", "next", "id", "callable", "getattr", "hasattr", "cast", "reversed"}
 
 
+def _total_key(k: ast.AST) -> bool:
+    """the sort key cannot tie on distinct strings: identity-like keys, or a tuple that ends with the element"""
+    if isinstance(k, ast.Name) and k.id in ("str", "repr"):
+        return True
+    if isinstance(k, ast.Lambda) and len(k.args.args) == 1:
+        p = k.args.args[0].arg
+        b = k.body
+        if isinstance(b, ast.Name) and b.id == p:
+            return True
+        if isinstance(b, ast.Call) and isinstance(b.func, ast.Name) and b.func.id in ("str", "repr") and b.args and isinstance(b.args[0], ast.Name) and b.args[0].id == p:
+            return True
+        if isinstance(b, ast.Tuple) and b.elts and isinstance(b.elts[-1], ast.Name) and b.elts[-1].id == p:
+            return True
+    return False
+
+
 class OrderAnalysis:
     """whole-library order-taint analysis; one instance per run"""
 
@@ -123,6 +139,11 @@ class FnOrder:
             d = A.dotted(e.func) or ""
             last = d.split(".")[-1]
             if isinstance(e.func, ast.Name) and last in ("sorted",):
+                keyf = next((k.value for k in e.keywords if k.arg == "key"), None)
+                if keyf is not None and not _total_key(keyf) and e.args:
+                    inner = self.set_or_tainted(e.args[0])
+                    if inner:
+                        return f"sorted by a key that can tie ({A.unparse(keyf)[:40]}): ties keep the order of {A.unparse(e.args[0])[:30]} ({inner})"
                 return None
             if isinstance(e.func, ast.Name) and last in ("list", "tuple", "deque", "iter", "reversed") and e.args:
                 return self.set_or_tainted(e.args[0])
@@ -218,7 +239,9 @@ class FnOrder:
 
     def _tainted_value(self, e: ast.AST) -> Optional[str]:
         """reason when the *ordered container* value of e has a hash-dependent order"""
-        if isinstance(e, ast.Call) and isinstance(e.func, ast.Name) and e.func.id in ("set", "frozenset", "sorted", "len", "min", "max", "sum", "any", "all"):
+        if isinstance(e, ast.Call) and isinstance(e.func, ast.Name) and e.func.id == "sorted":
+            return self.set_or_tainted(e)  # None unless the key can tie
+        if isinstance(e, ast.Call) and isinstance(e.func, ast.Name) and e.func.id in ("set", "frozenset", "len", "min", "max", "sum", "any", "all"):
             return None
         if isinstance(e, (ast.SetComp, ast.Set)):
             return None
@@ -352,6 +375,10 @@ class FnOrder:
         par = A.parent(node)
         if isinstance(par, ast.Call) and node in par.args:
             if isinstance(par.func, ast.Name) and par.func.id in INSENSITIVE:
+                if par.func.id == "sorted":
+                    keyf = next((k.value for k in par.keywords if k.arg == "key"), None)
+                    if keyf is not None and not _total_key(keyf):
+                        return None
                 return par.func.id
             if isinstance(par.func, ast.Attribute) and par.func.attr in (SET_MUT | {"intersection", "union", "difference", "issubset", "issuperset", "isdisjoint", "symmetric_difference"}):
                 rt = self.oa.t(self.fn, par.func.value)
@@ -390,6 +417,24 @@ class FnOrder:
                 loop = next((a for a in A.ancestors(call) if isinstance(a, ast.While)), None)
                 if loop is None:
                     self._ob("violation", call, "set.pop", f"{A.unparse(call)} takes an arbitrary element of a set")
+            return
+        if isinstance(f, ast.Name) and f.id == "sorted" and call.args:
+            r = self.set_or_tainted(call)
+            if r:
+                c = self._consumer_insensitive(call)
+                par = A.parent(call)
+                if c:
+                    self._ob("ok", call, "sorted(key)", f"{A.unparse(call)[:50]} consumed by {c}")
+                elif isinstance(par, ast.Assign) and all(isinstance(t, ast.Name) for t in par.targets):
+                    self._ob("ok", call, "sorted(key)", f"{A.unparse(call)[:50]} bound to a local: order-tainted, every use is checked")
+                elif isinstance(par, (ast.For, ast.comprehension)) and par.iter is call:
+                    pass
+                elif isinstance(par, (ast.Return, ast.Tuple)) and (isinstance(par, ast.Return) or isinstance(A.parent(par), ast.Return)):
+                    callers = self.oa.cg.call_sites_of(self.fn)
+                    self.oa.tainted_returns.setdefault(self.fn, r)
+                    self._ob("violation" if True else "ok", call, "sorted(key)", f"{A.unparse(call)[:60]} does not fix the order: {r}")
+                else:
+                    self._ob("violation", call, "sorted(key)", f"{A.unparse(call)[:60]} does not fix the order: {r}")
             return
         if isinstance(f, ast.Name) and f.id in MATERIALISE and call.args:
             r = None
@@ -1139,6 +1184,31 @@ def ord5(ctx) -> List[Ob]:
             out.append(bad("ORD-5", fn.qualname, key, where, f"{fn.qualname} " + "; ".join(probs)))
         else:
             out.append(ok("ORD-5", fn.qualname, key, where, "no memoisation, no mutable default", nontrivial=False))
+    # class-level mutable attributes mutated by methods (shared by every instance, survive across calls)
+    for c in prog.all_classes():
+        for st in c.node.body:
+            tgt = val = None
+            if isinstance(st, ast.Assign) and len(st.targets) == 1 and isinstance(st.targets[0], ast.Name):
+                tgt, val = st.targets[0].id, st.value
+            elif isinstance(st, ast.AnnAssign) and isinstance(st.target, ast.Name) and st.value is not None:
+                tgt, val = st.target.id, st.value
+            if tgt is None:
+                continue
+            mutable = isinstance(val, (ast.Dict, ast.List, ast.Set)) or (isinstance(val, ast.Call) and (A.dotted(val.func) or "").split(".")[-1] in ("dict", "list", "set", "defaultdict", "OrderedDict", "deque"))
+            if not mutable or (c.dataclass and isinstance(val, ast.Call) and (A.dotted(val.func) or "").endswith("field")):
+                continue
+            writers = []
+            for mname, meth in c.methods.items():
+                for n in ast.walk(meth.node):
+                    txts = []
+                    if isinstance(n, ast.Assign):
+                        txts = [A.unparse(t.value) for t in n.targets if isinstance(t, ast.Subscript)]
+                    elif isinstance(n, ast.Call) and isinstance(n.func, ast.Attribute) and n.func.attr in ("append", "add", "update", "setdefault", "extend", "pop", "clear"):
+                        txts = [A.unparse(n.func.value)]
+                    if any(t in (f"self.{tgt}", f"cls.{tgt}", f"{c.name}.{tgt}", f"type(self).{tgt}") for t in txts):
+                        writers.append(meth.qualname)
+            if writers:
+                out.append(bad("ORD-5", c.name, f"class-level mutable {c.name}.{tgt}", f"{c.module.relpath}:{A.lineno(st)}", f"class attribute {c.name}.{tgt} is a mutable container written by {sorted(set(writers))}: state leaks from one object / call to the next"))
     # module-level caches: a module constant that is a mutable container mutated from a function
     for m in prog.modules.values():
         for name, val in m.constants.items():
